@@ -44,6 +44,8 @@ ADDERS = {
     "set": {"add": ("item", 0), "update": ("each", 0)},
 }
 INPLACE = {"list": ["__iadd__"], "set": ["__ior__"]}
+# further builtin methods that put new elements into the container (only the override and the way to the hook are demanded for them)
+MORE_ADDERS = {"list": [], "set": ["symmetric_difference_update", "__ixor__"]}
 
 
 def _builtin_base(prog: Program, c) -> Optional[str]:
@@ -91,10 +93,12 @@ def mc_cover(prog: Program) -> RuleResult:
     for c in classes:
         kind = _builtin_base(prog, c)
         adders = dict(ADDERS[kind])
-        # an in-place operator the class defines itself is a bulk adder like extend / update (left to the builtin, PD-AUG covers it)
+        # the in-place operators are bulk adders like extend / update.  `x.f += v` also passes through the descriptor (PD-AUG), but the operator
+        # applied to the container itself - an alias of the field, a helper that was handed the list - reaches nothing but the container
         for op in INPLACE[kind]:
-            if prog.lookup(c.qual, op) is not None:
-                adders[op] = ("each", 0)
+            adders[op] = ("each", 0)
+        for op in MORE_ADDERS[kind]:
+            adders[op] = ("reach", 0)
         for mname, (mode, argi) in adders.items():
             key = f"{c.name}.{mname}"
             f = prog.lookup(c.qual, mname)
